@@ -8,6 +8,7 @@ import (
 	"go/constant"
 	"go/types"
 	"math/big"
+	"regexp"
 	"sort"
 	"strconv"
 	"strings"
@@ -940,6 +941,97 @@ func (e *Env) call(n *ECall) TV {
 	}
 	rty, rsort := se.resolveType(sd.Ret)
 	vc.enc.usedSpecs[sd.Name] = true
+	if sd.Body != nil && sd.Opaque {
+		// opaque: an uninterpreted symbol plus its definition as a quantified axiom. The symbol
+		// is indexed by the body translated against the old-region bases of the heap; an extra
+		// "era" argument is 0 for arguments that existed at function entry (State.base).
+		var binders, pnames []string
+		for i := range sd.Params {
+			pn := fmt.Sprintf("op$%s$p%d", sd.Name, i)
+			binders = append(binders, "("+pn+" "+sorts[i]+")")
+			pnames = append(pnames, pn)
+		}
+		trBody := func(st *State) string {
+			be := &Env{vc: vc, vars: map[string]Val{}, bound: map[string]TV{}, st: st, old: e.old, results: e.results, seenComp: e.seenComp, pkg: se.pkg, depth: e.depth + 1, self: e.self}
+			for i, p := range sd.Params {
+				pty, _ := se.resolveType(p.Ty)
+				be.bound[p.Name] = TV{S: pnames[i], Sort: sorts[i], Ty: pty}
+			}
+			saved := vc.stream
+			vc.stream = nil
+			body := be.tr(sd.Body)
+			side := vc.stream
+			vc.stream = saved
+			for _, l := range side {
+				if !strings.Contains(l, "op$"+sd.Name+"$p") {
+					vc.stream = append(vc.stream, l)
+				}
+			}
+			if body.Sort == "nil" {
+				return vc.enc.zeroOfSort(rsort, rty)
+			}
+			return body.S
+		}
+		rebased := e.st.clone()
+		for k := range e.st.comp {
+			rebased.comp[k] = vc.curBase(e.st, k)
+		}
+		bodyBase := trBody(rebased)
+		bodyCur := trBody(e.st)
+		h := sha1.Sum([]byte(normBound(bodyBase)))
+		sym := fmt.Sprintf("op$%s$%x", sd.Name, h[:4])
+		psorts := append(append([]string{}, sorts...), sInt)
+		app := func(era string) string {
+			return "(" + sym + " " + strings.Join(append(append([]string{}, pnames...), era), " ") + ")"
+		}
+		if !vc.enc.declared[sym] {
+			vc.enc.declFun(sym, psorts, rsort)
+			if len(binders) > 0 {
+				vc.enc.header = append(vc.enc.header, "(assert (forall ("+strings.Join(binders, " ")+") (! (= "+app("0")+" "+bodyBase+") :pattern ("+app("0")+"))))")
+			} else {
+				vc.enc.header = append(vc.enc.header, "(assert (= "+app("0")+" "+bodyBase+"))")
+			}
+		}
+		era := "0"
+		if normBound(bodyCur) != normBound(bodyBase) {
+			hc := sha1.Sum([]byte(normBound(bodyCur)))
+			n := uint64(hc[0])<<24 | uint64(hc[1])<<16 | uint64(hc[2])<<8 | uint64(hc[3])
+			k := fmt.Sprint(n + 1)
+			key := sym + "@" + k
+			if !vc.enc.declared[key] {
+				vc.enc.declared[key] = true
+				if len(binders) > 0 {
+					vc.enc.header = append(vc.enc.header, "(assert (forall ("+strings.Join(binders, " ")+") (! (= "+app(k)+" "+bodyCur+") :pattern ("+app(k)+"))))")
+				} else {
+					vc.enc.header = append(vc.enc.header, "(assert (= "+app(k)+" "+bodyCur+"))")
+				}
+			}
+			a0 := vc.cur(vc.entry, "alloc")
+			var old []string
+			for _, a := range args {
+				switch a.Sort {
+				case sInt:
+					if a.Ty != nil {
+						switch a.Ty.Underlying().(type) {
+						case *types.Pointer, *types.Map, *types.Signature, *types.Chan:
+							old = append(old, "(<= "+a.S+" "+a0+")")
+						}
+					}
+				case sIface:
+					old = append(old, vc.ifaceOld(a.S, a0))
+				case sSlice:
+					old = append(old, "(<= (sl-arr "+a.S+") "+a0+")")
+				}
+			}
+			era = ite(and(old...), "0", k)
+		}
+		var as []string
+		for _, a := range args {
+			as = append(as, a.S)
+		}
+		as = append(as, era)
+		return TV{S: "(" + sym + " " + strings.Join(as, " ") + ")", Sort: rsort, Ty: rty}
+	}
 	if sd.Body != nil {
 		if e.depth > 40 {
 			e.fail("spec %s: expansion too deep (recursive specs must be uninterpreted)", sd.Name)
@@ -962,14 +1054,17 @@ func (e *Env) call(n *ECall) TV {
 	}
 	// uninterpreted
 	name := "spec$" + sd.Name
-	if sd.HeapDep {
-		name += "$" + e.heapVersion(sd, se)
-	}
-	vc.enc.declFun(name, sorts, rsort)
 	var as []string
 	for _, a := range args {
 		as = append(as, a.S)
 	}
+	if sd.HeapDep {
+		baseH, curH := e.heapVersion(sd, se)
+		name += "$" + baseH
+		sorts = append(append([]string{}, sorts...), sInt)
+		as = append(as, e.eraTerm(args, baseH, curH))
+	}
+	vc.enc.declFun(name, sorts, rsort)
 	s := name
 	if len(as) > 0 {
 		s = "(" + name + " " + strings.Join(as, " ") + ")"
@@ -978,31 +1073,68 @@ func (e *Env) call(n *ECall) TV {
 }
 
 // heapVersion identifies the versions of the components a heap-dependent uninterpreted
-// spec function reads, so that facts about it survive exactly as long as that part of the
-// heap is unchanged.
-func (e *Env) heapVersion(sd *SpecDecl, se *Env) string {
+// spec function reads: the old-region bases (see State.base) and the current versions.
+func (e *Env) heapVersion(sd *SpecDecl, se *Env) (base, cur string) {
 	vc := e.vc
-	var parts []string
+	var bparts, cparts []string
 	if sd.Reads == nil {
 		for _, k := range sortedKeys(e.st.ep) {
-			parts = append(parts, fmt.Sprintf("%s=e%d", k, e.st.ep[k]))
+			bparts = append(bparts, fmt.Sprintf("%s=e%d", k, e.st.ep[k]))
 		}
 		for _, k := range sortedKeys(e.st.comp) {
-			if k == "alloc" || strings.HasPrefix(k, "Seen$") {
+			if k == "alloc" || strings.HasPrefix(k, "Seen$") || strings.HasPrefix(k, "Pos$") {
 				continue
 			}
-			parts = append(parts, k+"="+e.st.comp[k])
+			bparts = append(bparts, k+"="+vc.curBase(e.st, k))
+			cparts = append(cparts, k+"="+e.st.comp[k])
 		}
 	} else {
 		for _, r := range sd.Reads {
 			for _, comp := range se.compsOfLocSpec(r) {
-				parts = append(parts, comp+"="+vc.cur(e.st, comp))
+				bparts = append(bparts, comp+"="+vc.curBase(e.st, comp))
+				cparts = append(cparts, comp+"="+vc.cur(e.st, comp))
 			}
 		}
 	}
-	sort.Strings(parts)
-	h := sha1.Sum([]byte(strings.Join(parts, ";")))
-	return fmt.Sprintf("%x", h[:4])
+	sort.Strings(bparts)
+	sort.Strings(cparts)
+	hb := sha1.Sum([]byte(strings.Join(bparts, ";")))
+	hc := sha1.Sum([]byte(strings.Join(cparts, ";")))
+	base = fmt.Sprintf("%x", hb[:4])
+	cur = fmt.Sprintf("%x", hc[:4])
+	if strings.Join(bparts, ";") == strings.Join(cparts, ";") {
+		cur = ""
+	}
+	return
+}
+
+// eraTerm: 0 when every reference among the arguments denotes an object that existed at
+// function entry (the application then only depends on the old region, whose version is in
+// the symbol's name); otherwise a number identifying the current versions.
+func (e *Env) eraTerm(args []TV, baseH, curH string) string {
+	if curH == "" {
+		return "0"
+	}
+	vc := e.vc
+	a0 := vc.cur(vc.entry, "alloc")
+	var old []string
+	for _, a := range args {
+		switch a.Sort {
+		case sInt:
+			if a.Ty != nil {
+				switch a.Ty.Underlying().(type) {
+				case *types.Pointer, *types.Map, *types.Signature, *types.Chan:
+					old = append(old, "(<= "+a.S+" "+a0+")")
+				}
+			}
+		case sIface:
+			old = append(old, vc.ifaceOld(a.S, a0))
+		case sSlice:
+			old = append(old, "(<= (sl-arr "+a.S+") "+a0+")")
+		}
+	}
+	n, _ := strconv.ParseUint(curH, 16, 64)
+	return ite(and(old...), "0", fmt.Sprint(n+1))
 }
 
 // compsOfLocSpec: "Type.field", "Type.*", ghost name, "Elem[T]", "Map[K]V".
@@ -1011,6 +1143,30 @@ func (e *Env) compsOfLocSpec(loc string) []string {
 	if g, ok := vc.prog.cs.Ghosts[loc]; ok {
 		c, _, _ := e.ghostComp(g)
 		return []string{c}
+	}
+	if strings.HasPrefix(loc, "*") {
+		// cells holding a value of this (non-struct) type
+		te, err := parseTypeString(loc[1:])
+		if err == nil {
+			if t, _ := e.resolveType(te); t != nil {
+				if _, isStruct := t.Underlying().(*types.Struct); isStruct {
+					return vc.compsOfType(t)
+				}
+				c, _ := vc.cellComp(t)
+				return []string{c}
+			}
+		}
+	}
+	if strings.HasPrefix(loc, "map[") {
+		te, err := parseTypeString(loc)
+		if err == nil {
+			if t, _ := e.resolveType(te); t != nil {
+				if mt, ok := t.Underlying().(*types.Map); ok {
+					mh, mv, _, _ := vc.mapComps(mt)
+					return []string{mh, mv, "ML"}
+				}
+			}
+		}
 	}
 	if strings.HasPrefix(loc, "[]") {
 		// elements of every slice/array of this element type
@@ -1064,3 +1220,20 @@ func (e *Env) locComps(x Expr) []string {
 }
 
 var _ = constant.MakeBool
+
+var reBoundName = regexp.MustCompile(`(q\$[A-Za-z0-9_$]*|qk|qi|qs\$[A-Za-z0-9_]*)!\d+`)
+
+// normBound removes the per-translation numbering of bound variables so that two translations
+// of the same formula compare equal.
+func normBound(s string) string { return reBoundName.ReplaceAllString(s, "$1") }
+
+// ifaceOld: the interface value carries nothing allocated after function entry: a reference
+// at or below the entry allocation counter, or a boxed scalar; a boxed slice must itself
+// point at an old backing array.
+func (vc *FnVC) ifaceOld(v, a0 string) string {
+	vc.enc.declFun("slicetag", []string{sInt}, sBool)
+	vc.enc.declFun("box$Slice", []string{sSlice}, sInt)
+	vc.enc.declFun("unbox$Slice", []string{sInt}, sSlice)
+	vc.usesSliceTag = true
+	return and("(<= (if-data "+v+") "+a0+")", implies("(slicetag (if-tag "+v+"))", "(<= (sl-arr (unbox$Slice (if-data "+v+"))) "+a0+")"))
+}
